@@ -45,5 +45,24 @@ def nontrivial(cid, lines, r):
         handle |= res == 'handle'
     return refused and handle
 
-COQ_HEADER = FS_COQ_HEADER
-coq_case = fs_coq_case
+CONFIG['vm_sample'] = {'quick': 160, 'thorough': 1200}
+
+COQ_HEADER = '''From AF Require Import Lib.Bytes Lib.Path Lib.Ops Gen.Consts Model.MemFile Model.MemFs Model.Stack Model.Digest.
+Inductive vmcase := VM (i : N) (pat : nat) (name : str) (expect : bool)
+                  | VC (i : N) (k : stack) (its : list item) (d : N).
+Definition vm_ok (c : vmcase) : bool :=
+  match c with
+  | VM _ pat name e => Bool.eqb (re_match pat name) e
+  | VC _ k its d => N.eqb (case_digest k its) d
+  end.
+Definition vm_id (c : vmcase) : N := match c with VM i _ _ _ | VC i _ _ _ => i end.
+'''
+_ids = {}
+def coq_case(cid, lines, r):
+    t = lines[0].split(' ')
+    i = _ids.setdefault(cid, len(_ids))
+    if t[0] == 'rematch' and cid in r['M']:
+        return 'VM %d%%N %s %s %s' % (i, coq_nat(t[2]), coq_bytes(t[3]), coq_bool(r['M'][cid]))
+    if t[0] == 'case' and cid in r.get('D', {}) and len(lines) <= 110:
+        return 'VC %d%%N %s [%s] %s%%N' % (i, coq_stack(t[2]), ';\n  '.join(coq_item(l) for l in lines[1:-1]), r['D'][cid])
+    return None
